@@ -47,3 +47,8 @@ CLAIMS["C06"] = {
     "note": "Shard counts are varied only through CPU affinity (available_parallelism): 1, 4 and 16. Keys with >= 3 labels and repeated label names are excluded (their equality is order-sensitive by design, see C03).",
     "technique": "runtime monitoring: reference-map comparison with identity-carrying storage doubles; per-key Wing-Gong linearizability of recorded concurrent histories; gated lock-upgrade window; Miri",
 }
+CLAIMS["C16"] = {
+    "text": "Exploration: exact cycle model over all capacity/push-count boundary shapes (incl. capacity 0) decides the count, content, sample-rate and emptiness clauses; a fixed-threshold binomial test over hundreds of thousands of independent trials decides position uniformity (a one-slot bias gives |z| in the hundreds); pushes overlapping drains are forced by a gate between a pusher's side choice and its slot claim and judged by an exactly-once interval rule on unique values; Miri re-runs the overlap for data races.",
+    "note": "Uniformity is statistical (stated false-alarm bound). Pushes overlapping a drain are a listed known finding; every other anomaly is a violation.",
+    "technique": "runtime monitoring: exact reference model per push/drain cycle; fixed-threshold binomial retention test; gated push/drain overlap with exactly-once interval oracle; Miri",
+}
